@@ -54,6 +54,21 @@ def rule_r1(ctx):
             r.ob(cb, "free line %s only on rv != 0" % s.line)
         else:
             ctx.fail(r, cb, "message freed on the forwarding path", s.line, "device_cb frees a message on a path where rv == 0")
+    # ... and only when the path's state says the message on the aio is still the device's: after a successful send the
+    # aio may still point at a message the destination protocol now owns (pub0 does not clear it)
+    states = {}
+    for bid, k, atom, val in G.edge_facts(cb):
+        if atom.get("k") == "bin" and atom["op"] in ("==", "!=") and G.field_is(atom["lhs"], "state") and \
+                const_of(atom["rhs"]) is not None and ((atom["op"] == "==") == val):
+            states[bid] = k
+    for s in cb.calls("nni_msg_free"):
+        if states and G.dominated(cb, (s.b, s.i), states):
+            r.ob(cb, "free line %s under a test of the path state" % s.line)
+        else:
+            ctx.fail(r, cb, "message freed regardless of the path state", s.line,
+                     "device_cb frees the message on the path aio without testing whether the path is receiving or sending: "
+                     "after a successful send the pointer left on the aio belongs to the destination socket (use after free / "
+                     "double free when the device is stopped while idle)")
 
 
 def rule_r2(ctx):
